@@ -62,6 +62,10 @@ def configs(tier):
     for K, nak in itertools.product((1, 2), ("imm", "def")):
         out.append(dict(mode="ack", K=K, size=2 * L + 1 if K == 2 else L + 1, seg=L, nak=nak, closure=False, ack_limit=K + 1, nak_limit=K + 1,
                         check_limit=K + 1, link="k", tx2=dict(req_mode="ack", req_closure=False)))
+    # an unacknowledged transfer with closure first (fault-free), then an acknowledged one on the same handlers which takes the faults
+    for K, nak in itertools.product((1, 2) if tier == "thorough" else (1,), ("imm", "def")):
+        out.append(dict(mode="unack", closure=True, K=K, size=L + 1, seg=L, nak=nak, ack_limit=K + 1, nak_limit=K + 1, check_limit=K + 1, link="k",
+                        tx2=dict(req_mode="ack", req_closure=False), faults_from_tx=2))
     # acknowledged mode requested by the put request while the MIB default of the remote entity is unacknowledged
     for K, nak in itertools.product((1, 2) if tier == "thorough" else (1,), ("imm", "def")):
         out.append(dict(mode="unack", req_mode="ack", K=K, size=L + 1, seg=L, nak=nak, closure=False, ack_limit=K + 1, nak_limit=K + 1,
